@@ -6,6 +6,8 @@ import random
 import suite_cl
 import vlib
 from props import register
+import reg_q as _rq  # noqa: E402
+import reg_c09 as _c09  # noqa: E402
 
 
 def _shrink(exe, script, timeout=8, budget=240):
@@ -183,7 +185,11 @@ register(
     suites=[cl_suite("reent", 400, 12000, rule="random re-entrant programs: callbacks remove/insert near themselves (self, self+-1, self+-2), append, prepend, "
                      "re-invoke and enumerate to depth 3, through live / removed / never-issued handles; single, std::mutex and (thorough) SpinLock policies; "
                      "distinct = distinct canonical output; non-trivial = an inert (false) result produced inside a running invocation and >=3 calls",
-                     nontrivial=nt_reent)],
+                     nontrivial=nt_reent),
+            # the same through a dispatcher / queue: listeners that remove themselves or the last listener of the event
+            # being dispatched, with a mutex whose use after destruction is a reported memory error (variant "checked")
+            _rq.q_suite("dispatch", 150, 3000, [_rq.V("checked", 0, 0, 0, 0)], [_rq.V("checked", 0, 0, 0, 0), _rq.V("checked", 1, 1, 1, 0, mapk=1)],
+                        nontrivial=_rq.nt_dispatch)],
 )
 
 
@@ -233,8 +239,6 @@ register(
                      "canonical output; non-trivial = script places the counter, has callback behaviours and >=3 calls", nontrivial=nt_wrap)],
 )
 
-import reg_q as _rq
-import reg_c09 as _c09  # noqa: E402
 
 
 def nt_qcopy(feat, script, out):
